@@ -22,7 +22,7 @@
      predicates of StreamCli.tla; equality with the exported expectation is only "drift".
 """
 import json, os, random, threading, time
-import vlib
+import vlib, e2echeck
 
 PID = "C09"
 TLC_WORKERS = 4
@@ -363,6 +363,9 @@ def run(tier, seed, replay):
 
 def _run(tier, seed, replay, ctl):
     v = vlib.Verdict(PID, tier, seed)
+    if replay and "e2e_scenario" in (json.load(open(replay)).get("replay") or {}):
+        e2echeck.run_e2e(v, PID, tier, seed, json.load(open(replay))["replay"]["e2e_scenario"])
+        return v.finish()
     v.assumptions = [
         "time is virtual (testing/synctest); 'never hangs' = the call has returned one virtual hour after the last server action",
         "the scripted server resumes exactly after the event whose id the client sends, answers an id it never issued with 400 "
@@ -708,4 +711,6 @@ def _run(tier, seed, replay, ctl):
                     "rc": [x["outs"] for x in r["recon"]]}
         v.violation(sig, "%s [all failed: %s] (%d scenarios with this signature)" % (describe(inv, r), ",".join(real), n),
                     {"case": case, "seed": r["seed"], "observation": r, "exp": ({"exp": r["exp"], "viol": r["pred"]} if r.get("hasexp") else None)})
+    if not replay:   # the end-to-end part (spec/StreamE2E.tla): real client against the real server with an event store
+        e2echeck.run_e2e(v, PID, tier, seed)
     return v.finish()
